@@ -269,19 +269,34 @@ func (tr *fnTrans) instr(b *ssa.BasicBlock, in ssa.Instruction) {
 			tr.errorf("unsupported-construct: range over %s in %s", x.T.Name, tr.key)
 			return
 		}
-		tr.vals[in] = x // iterator identity; position tracked by Next
+		// the iterator is a fresh object whose only (ghost) state is the number of characters already yielded
+		id := tr.allocId()
+		tr.touchHeap("H_Iter", SInt, false)
+		tr.setHeap("H_Iter", store(tr.curHeap("H_Iter"), id, "0"))
+		tr.vals[in] = x
+		if tr.iterId == nil {
+			tr.iterId = map[ssa.Value]string{}
+		}
+		tr.iterId[in] = id
 	case *ssa.Next:
 		if !in.IsString {
 			tr.errorf("unsupported-construct: map iteration in %s", tr.key)
 			return
 		}
-		// string iteration, modelled for safety only: each step yields some byte index inside the string and some
-		// rune (the decoding itself is not modelled)
+		// string iteration: the j-th step yields the byte offset and the code point of the j-th character of the string
+		// (runeOff / runeAt / runeCount: UTF-8 decoding as range does it, specification functions of module core)
 		str := tr.val(in.Iter)
+		id := tr.iterId[in.Iter]
+		tr.touchHeap("H_Iter", SInt, false)
+		h0 := tr.curHeap("H_Iter")
+		j := tr.declare(tr.fresh(tr.vname(in)+"_j"), SInt)
+		tr.hyp(implies(in0, app("=", j, sel(h0, id))))
 		ok := tr.declare(tr.fresh(tr.vname(in)+"_ok"), SBool)
 		k := tr.declare(tr.fresh(tr.vname(in)+"_k"), SInt)
 		r := tr.declare(tr.fresh(tr.vname(in)+"_r"), SInt)
+		tr.hyp(implies(in0, and(app("=", ok, app("<", j, app("runeCount", str.S))), app("=", k, app("runeOff", str.S, j)), app("=", r, app("runeAt", str.S, j)))))
 		tr.hyp(implies(and(in0, ok), and(app("<=", "0", k), app("<", k, app("slen", str.S)), app("<=", "0", r), app("<=", r, "1114111"))))
+		tr.setHeap("H_Iter", store(h0, id, fmt.Sprintf("(ite %s (+ %s 1) %s)", ok, j, j)))
 		tr.tuples[in] = []Term{T(ok, SBool), T(k, SInt), T(r, SInt)}
 	case *ssa.MakeClosure:
 		tr.errorf("unsupported-construct: closure in %s", tr.key)
